@@ -877,6 +877,14 @@ class Prover:
                     r = (0, 0)
                 elif n in ("alloc::slice::<impl [T]>::to_vec", "alloc::borrow::ToOwned::to_owned") and t["args"]:
                     r = self.lin_interval(len_of(self, self.vx.operand(t["args"][0], D)))
+                elif n in ("core::convert::From::from", "core::convert::Into::into") and len(t["args"]) == 1:
+                    # Vec::from([u8; N]) / `[..].into()`: N elements
+                    import re as _re
+                    ms = [_re.fullmatch(r"\[.*; (\d+)\]", ty_str(a_)) for a_ in (t.get("f") or {}).get("a", [])]
+                    ms = [m_ for m_ in ms if m_]
+                    if len(ms) != 1:
+                        return None
+                    r = (int(ms[0].group(1)), int(ms[0].group(1)))
                 else:
                     return None
             elif n == "alloc::vec::Vec::<T, A>::resize":
